@@ -444,6 +444,16 @@ func runPhase(c *mon.Case) {
 		}
 		r1, e1 := runOn(seqs)
 		bad := mkBag([]string{"short", pc.Seqs[0].Name}, []string{"ATGA", pc.Seqs[0].Seq})
+		between := "a set holding a 4 nucleotide read"
+		switch c.R.Intn(3) {
+		case 0: // an empty set (a file without sequence): nothing to phase, nothing to remember
+			bad = align.NewSeqBag(align.NUCLEOTIDS)
+			between = "an empty set"
+		case 1: // a single sequence (fewer sequences than workers)
+			bad = mkBag([]string{pc.Seqs[0].Name}, []string{pc.Seqs[0].Seq})
+			between = "a set of one sequence"
+		}
+		c.Count("phaser-reuse:between=" + between)
 		r2, e2 := runOn(bad)
 		refused := e2 != nil
 		for _, x := range r2 {
@@ -459,7 +469,7 @@ func runPhase(c *mon.Case) {
 		case anyErr:
 			c.Count("phaser-reuse:run-with-reported-error")
 		case strings.Join(k1, "\n") != strings.Join(kb, "\n") || strings.Join(k3, "\n") != strings.Join(kb, "\n"):
-			c.Failf("phaser-reuse:result-set-differs", "one phaser object, cpus=%d, translate=%v: the set gives %d results on a fresh object, %d on the first call of a re-used object and %d after a call on a set holding a 4 nucleotide read (refused: %v)\nfresh:\n%s\n---\nthird call:\n%s", cpusB, pc.Translate, len(kb), len(k1), len(k3), refused, strings.Join(kb, "\n"), strings.Join(k3, "\n"))
+			c.Failf("phaser-reuse:result-set-differs", "one phaser object, cpus=%d, translate=%v: the set gives %d results on a fresh object, %d on the first call of a re-used object and %d after a call on "+between+" (refused: %v)\nfresh:\n%s\n---\nthird call:\n%s", cpusB, pc.Translate, len(kb), len(k1), len(k3), refused, strings.Join(kb, "\n"), strings.Join(k3, "\n"))
 		default:
 			c.Count(fmt.Sprintf("phaser-reuse:refused-set-in-between=%v", refused))
 		}
@@ -1231,7 +1241,8 @@ func main() {
 	mon.Floor("faults:kind:2", 5)
 	cliFloors()
 	mon.Floor("concurrent:calls", 500)
-	mon.Floor("phaser-reuse:refused-set-in-between=true", 300)
+	mon.Floor("phaser-reuse:refused-set-in-between=true", 100)
+	mon.Floor("phaser-reuse:between=an empty set", 100)
 	mon.Main("C16", []mon.Sub{
 		{Name: "witness", Quick: 3, Thorough: 3, Run: runWitness},
 		{Name: "phase", Quick: 3000, Thorough: 150000, Run: runPhase},
